@@ -32,7 +32,10 @@ import rpyc
 import rpyc.lib
 import rpyc.utils.helpers
 from rpyc.core import brine, consts, vinegar
+import io
+import logging
 from rpyc.core.async_ import AsyncResult
+from rpyc.core.netref import BaseNetref
 from rpyc.core.protocol import Connection
 from rpyc.lib import Timeout
 from rpyc.utils.helpers import BgServingThread
@@ -209,6 +212,9 @@ class LThread:
         self.exc = None
         self.thread = None
         self.is_bg = False
+        self.depth = 0              # nesting depth of serve() calls
+        self.win_depth = None       # serve depth at which it received a frame it has not finished dispatching
+        self.win_suspended = False  # it sent a request of its own while dispatching (a round trip: others may run)
         self.spun = False           # its last poll() failed the try-lock and returned at once
         self.in_close = False       # inside Connection.close(): its own HANDLE_CLOSE request is not a model action
 
@@ -619,6 +625,8 @@ class SChan:
             raise HarnessError("recv() on an empty channel (poll was not consulted)")
         fid, data = self.frames.pop(0)
         th.hand = fid
+        if th.win_depth is None:
+            th.win_depth = th.depth
         self.run.received.append((fid, th.tid))
         s.log(th, "p0", fid)
         return data
@@ -626,11 +634,17 @@ class SChan:
     def send(self, data):
         s = self.sched
         th = s.cur()
+        if th is None:
+            return                  # a proxy finalizer at teardown, outside any scheduled thread
         if s.aborting:
             raise Abort()
         msg, seq, args = brine.load(data)
         if msg != consts.MSG_REQUEST:
             raise HarnessError("unexpected outgoing message %r" % (msg,))
+        self.run.handler_of[seq] = args[0]
+        if th.win_depth is not None and not th.in_close:
+            th.win_suspended = True
+            self.run.nested_requests.append((th.tid, seq, args[0]))
         if th is not None and th.in_close:
             if self.closed:
                 raise EOFError("stream has been closed")
@@ -677,7 +691,7 @@ class LoggingDict(dict):
     def __setitem__(self, seq, cb):
         dict.__setitem__(self, seq, cb)
         th = self.sched.cur()
-        if th is not None and th.in_close:
+        if th is None or th.in_close:
             return
         self.run.cell_seq[id(cb)] = seq
         self.run.cells[seq] = cb
@@ -716,7 +730,9 @@ class Run:
                 bg=bool, exc=[seqs answered with MSG_EXCEPTION], sleep=int (bg sleep interval, virtual units),
                 dup=[seqs whose reply the peer sends twice]  (oracle search only; outside the model))
                 pollers=[[d | "ready", ...], ...]  one program per polling thread (conn.poll_all(d) / AsyncResult.ready),
-                eof=bool (the peer may close the stream), early_tick=bool
+                eof=bool (the peer may close the stream), early_tick=bool,
+                byref=bool (results travel by reference: proxies of remote lists), logger=bool (config["logger"] with DEBUG
+                enabled and a real handler), dispatcher_priority=bool (schedule family, see execute)
     Thread ids: clients 1..n, polling threads n+1..n+m, background thread n+m+1.
     """
     HORIZON = 40           # virtual time units
@@ -736,6 +752,9 @@ class Run:
         self.cells = {}
         self.current_tmo = {}
         self.current_poll = {}
+        self.handler_of = {}        # seq -> handler id of the request (answers to REPR/STR must be strings)
+        self.nested_requests = []   # (tid, seq, handler): requests a thread sent while dispatching a received frame
+        self.keepalive = []         # by-reference results, kept until the end of the run (their finalizers send DEL)
         self.results = {}           # tid -> list of (seq, outcome text, return time)
         self.completions = {}       # seq -> count of _is_ready stores
         self.choices = []           # (choice, enabled list, preempt?) per scheduling decision
@@ -760,6 +779,10 @@ class Run:
 
     @staticmethod
     def payload_of(obj):
+        if BaseNetref in type(obj).__mro__:
+            return object.__getattribute__(obj, "____id_pack__")[1]
+        if type(obj) is str and obj[:1] == "R" and obj[1:].isdigit():
+            return int(obj[1:])
         if isinstance(obj, BaseException):
             try:
                 return int(obj.args[0])
@@ -800,7 +823,16 @@ class Run:
     def build(self):
         s = self.sched
         chan = SChan(s, self)
-        conn = Connection(rpyc.VoidService(), chan, config={})
+        config = {}
+        if self.case.get("logger"):
+            log = logging.getLogger("verif-serve")
+            log.setLevel(logging.DEBUG)
+            log.propagate = False
+            for h in list(log.handlers):
+                log.removeHandler(h)
+            log.addHandler(logging.StreamHandler(io.StringIO()))
+            config["logger"] = log
+        conn = Connection(rpyc.VoidService(), chan, config=config)
         conn._recvlock = SLock(s)
         conn._recv_event = SCond(s)
         conn._seqcounter = LoggingCounter(s, self, conn._seqcounter)
@@ -821,14 +853,30 @@ class Run:
 
         def serve(timeout=1, wait_for_lock=True):
             th = s.cur()
+            if th is not None:
+                th.depth += 1
             try:
                 return real_serve(timeout, wait_for_lock)
             finally:
                 if th is not None and not s.aborting and th.phase == "n2":
                     s.log(th, "d0", "raise" if isinstance(sys.exc_info()[1], EOFError) else "none")
                     th.phase = None
+                if th is not None:
+                    if th.win_depth == th.depth:
+                        th.win_depth, th.win_suspended = None, False
+                    th.depth -= 1
 
         conn.serve = serve
+        real_factory = conn._netref_factory
+
+        def netref_factory(id_pack):
+            # keep every proxy alive until the end of the run: a dropped by-reference reply (no callback, expired) would
+            # otherwise send its HANDLE_DEL notice from inside the dispatch, at a garbage-collection-dependent moment
+            proxy = real_factory(id_pack)
+            run.keepalive.append(proxy)
+            return proxy
+
+        conn._netref_factory = netref_factory
         real_close = conn.close
 
         def close():
@@ -858,7 +906,11 @@ class Run:
                 n_before = len([1 for (t, _q) in self.issued if t == tid])
                 try:
                     v = conn.async_request(consts.HANDLE_PING, "x", timeout=tmo).value
-                    text = "value:0:%s" % (v if isinstance(v, int) else repr(v))
+                    if BaseNetref in type(v).__mro__:
+                        self.keepalive.append(v)
+                        text = "value:0:%d" % self.payload_of(v)
+                    else:
+                        text = "value:0:%s" % (v if isinstance(v, int) else repr(v))
                 except Abort:
                     raise
                 except Exception as ex:  # noqa
@@ -909,7 +961,17 @@ class Run:
         exc = seq in self.case.get("exc", ())
         val = payload_for(seq, n)
         fid = len(self.frames_sent)
-        if exc:
+        handler = self.handler_of.get(seq, consts.HANDLE_PING)
+        if handler in (consts.HANDLE_REPR, consts.HANDLE_STR):
+            data = brine.dump((consts.MSG_REPLY, seq, (consts.LABEL_VALUE, "R%d" % val)))
+            exc = False
+        elif handler != consts.HANDLE_PING:
+            data = brine.dump((consts.MSG_REPLY, seq, (consts.LABEL_VALUE, None)))
+            exc = False
+        elif self.case.get("byref") and not exc:
+            # a result that travels by reference: the proxy of a remote list (builtin class: no INSPECT round trip)
+            data = brine.dump((consts.MSG_REPLY, seq, (consts.LABEL_REMOTE_REF, ("builtins.list", val, val))))
+        elif exc:
             raw = vinegar.dump(ValueError, ValueError(val), None, include_local_traceback=False, include_local_version=False)
             data = brine.dump((consts.MSG_EXCEPTION, seq, raw))
         else:
@@ -970,6 +1032,13 @@ class Run:
                     continue
                 if nd is not None and self.case.get("early_tick") and en:
                     opts = opts + ["K"]
+                if self.case.get("dispatcher_priority"):
+                    # schedule family: a thread that has received a frame runs unpreempted until it has dispatched it
+                    # (others run only while it is blocked) -- unless it sent a request of its own meanwhile
+                    pri = ["T%d" % t for t in s.order if s.threads[t].win_depth is not None
+                           and not s.threads[t].win_suspended and "T%d" % t in en]
+                    if pri:
+                        opts = pri
                 choice = chooser(self, opts, current)
                 if choice not in opts:
                     raise HarnessError("chooser picked %r, not in %r" % (choice, opts))
@@ -1007,6 +1076,18 @@ class Run:
                     self.conn._closed = True
                 if self.bgt is not None:
                     self.bgt._active = False
+                # drop by-reference results now, in this thread (their finalizers call async_request)
+                del self.keepalive[:]
+                for cell in list(self.cells.values()):
+                    try:
+                        cell._obj = None
+                    except Exception:  # noqa
+                        pass
+                if self.conn is not None:
+                    try:
+                        self.conn._proxy_cache.clear()
+                    except Exception:  # noqa
+                        pass
         return self
 
     # -- summaries
@@ -1172,6 +1253,7 @@ class DirectedChooser:
 # ------------------------------------------------------------------------------------------------ oracles
 SIG_MAIN = "C14:receiver!=waiter:waiter-acquires-between-release-and-dispatch"
 SIG_LATE = "C14:receiver!=waiter:readiness-tested-before-dispatch-no-notify-after"
+SIG_NESTED = "C14:dispatcher-blocks-in-nested-request-before-publication"
 
 
 def calls_of(run):
@@ -1218,7 +1300,13 @@ def stalls_of(run):
         w0s = [x for x in mine if x[2] == "w0" and x[0] < i_d5]
         sig = None
         shape = ""
-        if r == w:
+        r0s = [x for x in ev if x[1] == r and x[2] == "r0" and x[0] < i_d5]
+        nested = [x for x in ev if x[1] == r and x[2] == "c2" and r0s and r0s[-1][0] < x[0] < i_d5]
+        if r != w and nested:
+            sig = SIG_NESTED
+            shape = ("between releasing the receive lock and publishing the result the dispatching thread sent a request of "
+                     "its own (seq %s) and waited for the answer; the woken waiter ran meanwhile" % (nested[0][3],))
+        elif r == w:
             sig = "C14:receiver==waiter:unexpected"
         elif not w0s:
             sig = "C14:other:no-readiness-test-before-dispatch"
